@@ -190,7 +190,8 @@ PROPS['C19'] = dict(
     bounds="single thread; the thread-local destructors registered during the run are executed after the entry point returns (LIFO, as the platform does), "
            "with a user thread-local holding Ccs registered before or after the collector's own (both relative orders), objects buffered / in a cycle / unique",
     outside="the independence clause (interleavings of OS threads) is NOT decided; the libc/std thread-exit sequence itself is modelled, not executed",
-    runs=both('h_tls', covers=[1]) + [R('h_tls', 'faw', covers=[1])] + twin('h_tls_twin'),
+    runs=both('h_tls', covers=[1], tls_teardown=True) + [R('h_tls', 'faw', covers=[1], tls_teardown=True), R('h_tls', 'none', covers=[1], tls_teardown=True)]
+         + [R('h_tls_twin', 'fa', 'dev', Q, twin=True, tls_teardown=True)],
 )
 PROPS['C20'] = dict(
     bounds="addresses: the C03 layout grid and a zero-sized payload; forwarding: Eq/PartialEq/PartialOrd/Ord/Hash/Default/From on Cc<T> for T in "
